@@ -12,6 +12,8 @@ use cairo_lang_lowering::optimizations::config::Optimizations;
 use cairo_lang_sierra_generator::db::SierraGenGroup;
 use cairo_lang_sierra_generator::replace_ids::replace_sierra_ids_in_program;
 
+pub mod shape;
+
 pub const CORELIB: &str = "/repo/corelib/src";
 
 /// A database as `cairo-compile` builds it (default plugins, auto withdraw gas), with the
